@@ -779,6 +779,14 @@ def make_stack(spec):
                 A["a"][1, 1] = 2.0
                 if A["b"][1, 1] == 2.0:
                     A["b"][1, 1] = 3.5
+        if spec["stream"] == "lattice" and A is not None and e.name == "plane.intersect_segment_with_plane" and k >= 1 \
+                and all(isinstance(A.get(a), np.ndarray) and A[a].ndim == 2 for a in ("start_points", "segment_vectors", "points_on_plane", "plane_normals")):
+            # a row whose segment lies in its plane (t = 0/0): start on the plane, vector perpendicular to the normal, all exact
+            n0 = A["plane_normals"][0]
+            if np.any(n0):
+                e_ = np.array([1.0, 0.0, 0.0]) if n0[1] or n0[2] else np.array([0.0, 1.0, 0.0])
+                A["segment_vectors"][0] = np.cross(n0, e_)
+                A["start_points"][0] = A["points_on_plane"][0] + np.cross(n0, np.cross(n0, e_))
         if spec["stream"] in ("float", "float-mixed") and A is not None:
             g = np.random.default_rng(spec["seed"] + 7)
             for a, kind in e.args:
@@ -931,6 +939,23 @@ def make_stack(spec):
             sc = max(1.0, float(np.max(np.abs(P))) if P.size else 1.0, float(np.max(np.abs(S.reference_point))))
         cases.append(Case(spec, ln, im, mode="rat", klass="stack-model/%s/%s" % (e.name, "+".join(sorted(stacked)) or "single"),
                           trivial=(k == 0), scale=sc))
+    # the stacked segment / plane intersection also against C14's model of it (values, not only stack = rows: a row that both
+    # forms get wrong in the same way -- e.g. a segment lying in its plane -- is invisible to the row-by-row comparison)
+    if e.name == "plane.intersect_segment_with_plane" and spec["stream"] == "lattice" and k >= 1:
+        S, A = build()
+        names = ("start_points", "segment_vectors", "points_on_plane", "plane_normals")
+        if A is not None and all(isinstance(A.get(a), np.ndarray) and A[a].ndim == 2 for a in names) \
+                and all(np.any(n_) for n_ in A["plane_normals"]):
+            import sys as _sys
+            ln = Line("xs.isp").f(_sys.float_info.max)
+            for a in names:
+                ln.vecs(A[a])
+            f = getattr(__import__("polliwog.plane", fromlist=["intersect_segment_with_plane"]), "intersect_segment_with_plane")
+
+            def im_isp():
+                r = np.asarray(f(*[shcopy(A[a]) for a in names]), dtype=np.float64).reshape(-1, 3)
+                return [int(len(r))] + [None if x != x else float(x) for x in r.ravel()]
+            cases.append(Case(spec, ln, im_isp, mode="rat", klass="stack-model/%s" % e.name, scale=max(1.0, float(np.max(np.abs(A["start_points"]))))))
     return cases
 
 
